@@ -5,6 +5,7 @@ ID=$1; shift
 cd /verif
 [ -n "$(git -C /repo status --porcelain)" ] && { echo "/repo is not clean"; exit 2; }
 git -C /repo apply /verif/seeded/$ID/patch.diff || { echo "PATCH DOES NOT APPLY"; exit 2; }
+EVBAK=$(mktemp -d); cp evidence/*.json $EVBAK/    # evidence/ describes the UNCHANGED tree: restored below
 LOG=seeded/$ID/detect.log
 echo "== $(date -u +%FT%TZ) /repo $(git -C /repo rev-parse --short HEAD) + seeded/$ID/patch.diff" >> $LOG
 for P in "$@"; do
@@ -12,4 +13,5 @@ for P in "$@"; do
   for f in out/$P/violation_*.json; do [ -f "$f" ] && jq -c '{kind,family,seed,message:(.message|.[0:300])}' $f | head -3 | tee -a $LOG; done 2>/dev/null | head -6
 done
 git -C /repo checkout -- .
+cp $EVBAK/*.json evidence/; rm -rf $EVBAK
 git -C /repo status --porcelain | head -3
